@@ -205,7 +205,7 @@ def main(pid, tier, seed, replay=None):
             sp = os.path.join(rundir, "search.txt")
             mp = os.path.join(rundir, "search_model.txt")
             n = (getattr(mod, "COUNTS", {}).get(tier) or 0) * 3 or None
-            rc, out = run_harness(mod, tier, extra_seed, sp, n=n)
+            rc, out = run_harness(mod, tier, extra_seed, sp, n=n, race=getattr(mod, "RACE", False))
             if rc != 0:
                 continue
             rc, err = run_model(mod, sp, mp)
